@@ -139,6 +139,54 @@ theorem kelvinRadius_pos [IsStrictOrderedRing α] (R f T : α) (a : AdsProps α)
   have h2 : ((f * R) * T) * lnp < 0 := mul_neg_of_pos_of_neg (by positivity) hl
   exact div_pos_of_neg_of_neg (by linarith) h2
 
+/-- D5'. the Kelvin radius is inversely proportional to the temperature argument: `r(T) · T = r(T') · T'` (both temperatures non-zero;
+with the totalised division this also holds when `f R ln p = 0`, where both radii are `0`) -/
+theorem kelvinRadius_mul_temperature (R f T T' : α) (a : AdsProps α) (lnp : α) (hT : T ≠ 0) (hT' : T' ≠ 0) :
+    kelvinRadius R f T a lnp * T = kelvinRadius R f T' a lnp * T' := by
+  unfold kelvinRadius
+  by_cases h : (f * R) * lnp = 0
+  · have e : ∀ x : α, ((f * R) * x) * lnp = ((f * R) * lnp) * x := fun x => by ring
+    rw [e T, e T', h]; simp
+  · have hf : f * R ≠ 0 := left_ne_zero_of_mul h
+    have hl : lnp ≠ 0 := right_ne_zero_of_mul h
+    field_simp
+
+/-- D5''. the temperature the Kelvin model receives must be the ABSOLUTE temperature of the experiment, whatever number the isotherm
+stores: for a physical property set below saturation, the radius computed with the stored number `T − c` of another temperature scale
+(`c ≠ 0`; `c = 273.15` for °C) is never the radius at `T` — also when the stored number is `0` (0 °C: the totalised division gives `0`,
+the true radius is positive) or negative (cryogenic experiments in °C: the "radius" is negative, see `kelvinRadius_neg_of_stored_neg`).
+So a pore width computed from the stored number differs from `2 (r_K(T) + t)` at EVERY pressure: the representation-invariance
+oracle of the harness (same isotherm stored in K and in °C) observes exactly this. -/
+theorem kelvinRadius_stored_scale_ne [IsStrictOrderedRing α] (R f T c : α) (a : AdsProps α) (lnp : α)
+    (hR : 0 < R) (hf : 0 < f) (hT : 0 < T) (hγ : 0 < a.surfaceTension) (hM : 0 < a.molarMass) (hρ : 0 < a.liquidDensity)
+    (hl : lnp < 0) (hc : c ≠ 0) :
+    kelvinRadius R f (T - c) a lnp ≠ kelvinRadius R f T a lnp := by
+  have hpos := kelvinRadius_pos R f T a lnp hR hf hT hγ hM hρ hl
+  intro heq
+  by_cases h0 : T - c = 0
+  · have hz : kelvinRadius R f (T - c) a lnp = 0 := by
+      unfold kelvinRadius; rw [h0]; simp
+    rw [hz] at heq; exact absurd heq.symm (ne_of_gt hpos)
+  · have hm := kelvinRadius_mul_temperature R f (T - c) T a lnp h0 (ne_of_gt hT)
+    rw [heq] at hm
+    have : T - c = T := mul_left_cancel₀ (ne_of_gt hpos) hm
+    exact hc (by linarith)
+
+/-- D5'''. a negative stored number (a cryogenic temperature written in °C) turns every Kelvin radius negative -/
+theorem kelvinRadius_neg_of_stored_neg [IsStrictOrderedRing α] (R f T : α) (a : AdsProps α) (lnp : α)
+    (hR : 0 < R) (hf : 0 < f) (hT : T < 0) (hγ : 0 < a.surfaceTension) (hM : 0 < a.molarMass) (hρ : 0 < a.liquidDensity)
+    (hl : lnp < 0) :
+    kelvinRadius R f T a lnp < 0 := by
+  unfold kelvinRadius
+  have h1 : 0 < (2 * a.surfaceTension) * (a.molarMass / a.liquidDensity) := by positivity
+  have h2 : 0 < ((f * R) * T) * lnp := mul_pos_of_neg_of_neg (mul_neg_of_pos_of_neg (by positivity) hT) hl
+  exact div_neg_of_neg_of_pos (by linarith) h2
+
+/-- non-vacuity: nitrogen-like numbers at 77 K, stored as −196.15 °C, `ln p = −1/2` -/
+example : kelvinRadius (8 : ℚ) 2 (77 - 27315 / 100) ⟨28, 4 / 5, 9, 1 / 35⟩ (-1 / 2) ≠ kelvinRadius (8 : ℚ) 2 77 ⟨28, 4 / 5, 9, 1 / 35⟩ (-1 / 2) :=
+  kelvinRadius_stored_scale_ne 8 2 77 (27315 / 100) ⟨28, 4 / 5, 9, 1 / 35⟩ (-1 / 2) (by norm_num) (by norm_num) (by norm_num)
+    (by norm_num) (by norm_num) (by norm_num) (by norm_num) (by norm_num)
+
 end Analysis
 
 /-! ## D'. ties to the formulas generated from the source -/
